@@ -32,6 +32,7 @@ type Obl struct {
 	Candidate bool // Model comes from a weakened query
 	Retried bool
 	Local   []string // declarations and assumptions local to this obligation (lemma proofs)
+	Long    bool // larger solver budget (clause marked `long`)
 	Presolved bool // decided by the generator itself (no solver query)
 }
 
@@ -51,6 +52,7 @@ func (s *State) clone() *State {
 
 // Region is a set of cells [Lo,Hi) of object Obj (all cells when Whole), restricted to heap sorts Sorts (nil = all).
 type Region struct {
+	AllObjs bool // every object (restricted to Sorts): a loop effect that cannot be attributed to one object
 	Cells  int64  // > 0: the region is exactly the Cells cells of one value of type T starting at (Obj, Lo)
 	Owner  string // with TypeID: only the objects whose ghost owner is this object id ("owned(m, T)")
 	Map    bool   // the object is a map: only the map heaps are concerned
@@ -123,6 +125,7 @@ type Gen struct {
 	errClasses []string
 	prelude  []string // assertions that hold globally (placed before all commands)
 	gathers  map[string]string // defining term of a gathered sequence -> its array constant
+	roObjs   []string          // objects of the parameters of a function that assigns nothing (never written)
 }
 
 type Loop struct {
@@ -262,6 +265,11 @@ func (g *Gen) obligeAt1(kind, label, pos, pc, cond string) *Obl {
 		id = kind + ":" + id
 	}
 	o := &Obl{Name: g.key + ":" + id, Kind: kind, Label: label, Pos: pos, Func: g.key, Prefix: len(g.cmds), Goal: goal}
+	for l := range longLabels {
+		if label == l || strings.HasSuffix(label, "."+l) || strings.Contains(label, "."+l+".") || strings.HasPrefix(label, l+".") {
+			o.Long = true
+		}
+	}
 	g.obls = append(g.obls, o)
 	if cond != "false" {
 		g.assume(goal)
@@ -358,6 +366,20 @@ func (g *Gen) setHeap(st *State, sort string, term string) {
 	name := g.freshConst(h, g.L.HeapSort(sort))
 	g.assume(sEq(name, term))
 	st.H[h] = name
+	g.readOnlyFacts(h, name)
+}
+
+// readOnlyFacts: in a function whose contract says `assigns nothing`, the objects its pointer and slice parameters
+// point to are never written (every write is obliged to go to an object allocated by the call itself), so each new
+// version of a data heap holds the entry content at those objects. The fact follows from the frame obligations that
+// precede it; it is stated explicitly so that the solver does not have to walk the chain of heap versions.
+func (g *Gen) readOnlyFacts(heap, name string) {
+	if len(g.roObjs) == 0 || g.cellHeaps[heap] == "" || name == heap+"@0" {
+		return
+	}
+	for _, o := range g.roObjs {
+		g.assume(sEq(app("select", name, o), app("select", heap+"@0", o)))
+	}
 }
 
 func (g *Gen) storeCell(st *State, p string, sort string, v string) {
